@@ -329,6 +329,8 @@ FailedRunCommitsNothing ==
 DormantNeverCommitted ==
   /\ (IsStart /\ last.commits > 0) => prev.elig = "admitted"
   /\ (elig = "dormant" => st.work # "runnable_pending")
+\* the status carried by a response is the status the kernel reports afterwards
+ResponseCarriesStatus == (last.act # "init" /\ last.status # None) => last.status = st
 \* read-only calls change nothing
 ReadChangesNothing == last.act = "read" => Unchanged(prev)
 TypeOK == /\ pending \subseteq Intents /\ committed \subseteq Intents /\ wtick \in Nat /\ gtick \in Nat
